@@ -32,11 +32,11 @@ Lemma forallb_skipn {A} (p : A -> bool) n : forall l, forallb p l = true -> fora
 Proof. induction n as [|n IH]; intros [|x l] H; cbn in *; try reflexivity; try exact H. apply andb_true_iff in H. destruct H as [_ H]. apply IH, H. Qed.
 
 Lemma esc_u_remove : forall n l, List.length l <= n -> forallb (fun c => negb (Ascii.eqb c bsc)) l = true ->
-  remove_char bsc (string_of_list_ascii (LexEscapeU.esc_u cl n l)) = string_of_list_ascii l.
+  remove_char bsc (string_of_list_ascii (Escape.esc_u cl n l)) = string_of_list_ascii l.
 Proof.
   induction n as [|n IH]; intros l Hn H.
   - destruct l; [reflexivity|cbn in Hn; lia].
-  - cbn [LexEscapeU.esc_u]. destruct (Lex.decode_rune l) as [[r w]|] eqn:D.
+  - cbn [Escape.esc_u]. destruct (Lex.decode_rune l) as [[r w]|] eqn:D.
     2:{ apply LexCtx.decode_none in D. subst. reflexivity. }
     destruct (LexEscapeU.chunk_len l r w D) as [_ L2].
     rewrite sola_app, remove_app, (IH (skipn w l)); [|lia|apply forallb_skipn, H].
@@ -47,11 +47,11 @@ Proof.
 Qed.
 
 Lemma esc_u_contains x : Ascii.eqb bsc x = false -> forall n l, List.length l <= n ->
-  contains_char x (string_of_list_ascii (LexEscapeU.esc_u cl n l)) = contains_char x (string_of_list_ascii l).
+  contains_char x (string_of_list_ascii (Escape.esc_u cl n l)) = contains_char x (string_of_list_ascii l).
 Proof.
   intros Hx. induction n as [|n IH]; intros l Hn.
   - destruct l; [reflexivity|cbn in Hn; lia].
-  - cbn [LexEscapeU.esc_u]. destruct (Lex.decode_rune l) as [[r w]|] eqn:D.
+  - cbn [Escape.esc_u]. destruct (Lex.decode_rune l) as [[r w]|] eqn:D.
     2:{ apply LexCtx.decode_none in D. subst. reflexivity. }
     destruct (LexEscapeU.chunk_len l r w D) as [_ L2].
     rewrite sola_app, contains_app, (IH (skipn w l)) by lia.
@@ -60,7 +60,7 @@ Proof.
 Qed.
 End S.
 
-Definition escaped_text_u (cl : Lex.classes) (f w : list ascii) : string := string_of_list_ascii (f ++ ":"%char :: LexEscapeU.esc cl w).
+Definition escaped_text_u (cl : Lex.classes) (f w : list ascii) : string := string_of_list_ascii (f ++ ":"%char :: Escape.esc cl w).
 
 Theorem to_postgres_on_escaped_value_u :
   forall (o : oracle) (o2 : oracle2) (cl : Lex.classes),
@@ -71,10 +71,10 @@ Theorem to_postgres_on_escaped_value_u :
   Lex.is_alnum cl Lex.rune_error = false ->
   forall (c0 : ascii) (f : list ascii) (d0 : ascii) (w : list ascii),
   forallb (LexField.wordc cl) (c0 :: f) = true -> Lex.word_type (c0 :: f) = TLiteral ->
-  Lex.word_type (LexEscapeU.esc cl (d0 :: w)) = TLiteral ->
+  Lex.word_type (Escape.esc cl (d0 :: w)) = TLiteral ->
   forallb (fun c => negb (Ascii.eqb c "\"%char)) (d0 :: w) = true ->
   let fs := string_of_list_ascii (c0 :: f) in let ws := string_of_list_ascii (d0 :: w) in
-  let es := string_of_list_ascii (LexEscapeU.esc cl (d0 :: w)) in
+  let es := string_of_list_ascii (Escape.esc cl (d0 :: w)) in
   contains_char "*"%char ws = false -> contains_char "?"%char ws = false ->
   atoi es = None -> match parse_float o es with Some x => is_nan_or_inf o x = true | None => True end ->
   parse_literal o {| typ := TLiteral; val := fs |} = lit (VStr fs) ->
@@ -86,8 +86,8 @@ Theorem to_postgres_on_escaped_value_u :
 Proof.
   intros o o2 cl Hq Hc Hb Hws Her c0 f d0 w Hf Ht He Hnb fs ws es Hs Hqm Hat Hfl Pl Nm Co Lo.
   assert (Rm : remove_char "\"%char es = ws) by (apply (esc_u_remove cl); [apply le_n|exact Hnb]).
-  assert (Cs : contains_char "*"%char es = false) by (unfold es, LexEscapeU.esc; rewrite (esc_u_contains cl "*"%char eq_refl) by apply le_n; exact Hs).
-  assert (Cq : contains_char "?"%char es = false) by (unfold es, LexEscapeU.esc; rewrite (esc_u_contains cl "?"%char eq_refl) by apply le_n; exact Hqm).
+  assert (Cs : contains_char "*"%char es = false) by (unfold es, Escape.esc; rewrite (esc_u_contains cl "*"%char eq_refl) by apply le_n; exact Hs).
+  assert (Cq : contains_char "?"%char es = false) by (unfold es, Escape.esc; rewrite (esc_u_contains cl "?"%char eq_refl) by apply le_n; exact Hqm).
   destruct (escaped_value_reaches_postgres o o2 {| typ := TLiteral; val := fs |} fs es ws eq_refl Pl Hat Hfl Cs Cq Rm Nm Co Lo) as [Pt [s [R [Rd Sm]]]].
   exists s. split; [|split; assumption].
   unfold Api.to_postgres, Api.parse, Api.lex_tokens, escaped_text_u. rewrite QuoteText.los_sola.
@@ -108,10 +108,10 @@ Theorem to_param_postgres_on_escaped_value_u :
   Lex.is_alnum cl Lex.rune_error = false ->
   forall (c0 : ascii) (f : list ascii) (d0 : ascii) (w : list ascii),
   forallb (LexField.wordc cl) (c0 :: f) = true -> Lex.word_type (c0 :: f) = TLiteral ->
-  Lex.word_type (LexEscapeU.esc cl (d0 :: w)) = TLiteral ->
+  Lex.word_type (Escape.esc cl (d0 :: w)) = TLiteral ->
   forallb (fun c => negb (Ascii.eqb c "\"%char)) (d0 :: w) = true ->
   let fs := string_of_list_ascii (c0 :: f) in let ws := string_of_list_ascii (d0 :: w) in
-  let es := string_of_list_ascii (LexEscapeU.esc cl (d0 :: w)) in
+  let es := string_of_list_ascii (Escape.esc cl (d0 :: w)) in
   contains_char "*"%char ws = false -> contains_char "?"%char ws = false ->
   atoi es = None -> match parse_float o es with Some x => is_nan_or_inf o x = true | None => True end ->
   parse_literal o {| typ := TLiteral; val := fs |} = lit (VStr fs) ->
@@ -123,8 +123,8 @@ Theorem to_param_postgres_on_escaped_value_u :
 Proof.
   intros o o2 cl Hq Hc Hb Hws Her c0 f d0 w Hf Ht He Hnb fs ws es Hs Hqm Hat Hfl Pl Nm Co Vq.
   assert (Rm : remove_char "\"%char es = ws) by (apply (esc_u_remove cl); [apply le_n|exact Hnb]).
-  assert (Cs : contains_char "*"%char es = false) by (unfold es, LexEscapeU.esc; rewrite (esc_u_contains cl "*"%char eq_refl) by apply le_n; exact Hs).
-  assert (Cq : contains_char "?"%char es = false) by (unfold es, LexEscapeU.esc; rewrite (esc_u_contains cl "?"%char eq_refl) by apply le_n; exact Hqm).
+  assert (Cs : contains_char "*"%char es = false) by (unfold es, Escape.esc; rewrite (esc_u_contains cl "*"%char eq_refl) by apply le_n; exact Hs).
+  assert (Cq : contains_char "?"%char es = false) by (unfold es, Escape.esc; rewrite (esc_u_contains cl "?"%char eq_refl) by apply le_n; exact Hqm).
   assert (Nst : String.eqb ws "*" = false).
   { destruct (String.eqb ws "*") eqn:E; [|reflexivity]. apply String.eqb_eq in E. rewrite E in Hs. discriminate. }
   pose proof (escaped_value_tree o {| typ := TLiteral; val := fs |} fs es ws eq_refl Pl Hat Hfl Cs Cq Rm) as Pt.
